@@ -1,9 +1,182 @@
-(* C18 -- AES and PRNG generators implement their published algorithms (work in progress). *)
-From Coq Require Import ZArith List.
-From PyRTL Require Import Lib.AesSpec Lib.AesModel.
+(* C18 -- AES and PRNG generators implement their published algorithms.
+   Only statements + `exact`; proofs live in Lib/AesProofs.v, AesSteps.v, AesCipher.v, AesInverse.v,
+   PrngProofs.v.  Specifications: Lib/AesSpec.v (FIPS-197), Lib/PrngSpec.v (published PRNGs).
+   Structure models of rtllib: Lib/AesModel.v (over Gen/AesTables.v, regenerated from
+   pyrtl/rtllib/aes.py on every run), Lib/PrngModel.v. *)
+From Coq Require Import ZArith List Bool.
+From PyRTL Require Import Gen.AesTables Lib.AesSpec Lib.AesModel Lib.AesProofs Lib.AesSteps
+  Lib.AesCipher Lib.AesInverse Lib.PrngSpec Lib.PrngModel Lib.PrngProofs.
+Import ListNotations.
 Open Scope Z_scope.
 
+(* ---- the regenerated tables are the functions they stand for.  Finite domain: 256 entries per
+   table, decided by a vm_compute sweep lifted with forallb_forall (a proof, bound = 256). ---- *)
+Theorem C18_aes_tables_correct : forall b, 0 <= b < 256 ->
+  rom mem_sbox b = SubByte b /\ rom mem_inv_sbox b = InvSubByte b /\
+  m_galois_mult b 2 = gmul 2 b /\ m_galois_mult b 3 = gmul 3 b /\
+  m_galois_mult b 9 = gmul 9 b /\ m_galois_mult b 11 = gmul 11 b /\
+  m_galois_mult b 13 = gmul 13 b /\ m_galois_mult b 14 = gmul 14 b /\
+  (1 <= b -> rom mem_rcon b = xtime_pow (Z.to_nat (b - 1)) 1) /\
+  InvSubByte (SubByte b) = b /\ SubByte (InvSubByte b) = b.
+Proof. exact aes_tables_correct_lemma. Qed.
+Print Assumptions C18_aes_tables_correct.
+
+Theorem C18_aes_table_lengths :
+  map (@length Z) [tbl_sbox_data; tbl_inv_sbox_data; tbl_rcon_data; tbl_GM2_data; tbl_GM3_data;
+                   tbl_GM9_data; tbl_GM11_data; tbl_GM13_data; tbl_GM14_data] = repeat 256%nat 9.
+Proof. exact table_lengths. Qed.
+Print Assumptions C18_aes_table_lengths.
+
+(* ---- every sub-function of aes.py is the FIPS-197 transformation, for every 16-byte state ---- *)
+Theorem C18_aes_steps_are_fips197 : forall s, good16 s ->
+  m_sub_bytes false (of_bytes_be s) = of_bytes_be (SubBytes s) /\
+  m_sub_bytes true (of_bytes_be s) = of_bytes_be (InvSubBytes s) /\
+  m_shift_rows (of_bytes_be s) = of_bytes_be (ShiftRows s) /\
+  m_inv_shift_rows (of_bytes_be s) = of_bytes_be (InvShiftRows s) /\
+  m_mix_columns false (of_bytes_be s) = of_bytes_be (MixColumns s) /\
+  m_mix_columns true (of_bytes_be s) = of_bytes_be (InvMixColumns s).
+Proof.
+  exact (fun s H => conj (m_sub_bytes_spec s H) (conj (m_inv_sub_bytes_spec s H)
+        (conj (m_shift_rows_spec s H) (conj (m_inv_shift_rows_spec s H)
+        (conj (m_mix_columns_spec s H) (m_inv_mix_columns_spec s H)))))).
+Qed.
+Print Assumptions C18_aes_steps_are_fips197.
+
+(* the code's per-round key expansion computes the FIPS-197 key schedule *)
+Theorem C18_aes_key_schedule_is_fips197 : forall kb r, good16 kb -> (r <= 10)%nat ->
+  nth r (m_key_list (of_bytes_be kb)) 0 = of_bytes_be (round_key (KeyExpansion kb) r).
+Proof. exact (fun kb r H Hr => proj2 (proj2 (round_key_spec kb r H Hr))). Qed.
+Print Assumptions C18_aes_key_schedule_is_fips197.
+
+(* ---- AES.encryption = FIPS-197 Cipher, for every key and every block ---- *)
+Theorem C18_aes_encrypt_model_is_fips197 : forall key pt,
+  0 <= key < 2 ^ 128 -> 0 <= pt < 2 ^ 128 -> m_encryption key pt = CipherZ key pt.
+Proof. exact enc_model_is_fips197. Qed.
+Print Assumptions C18_aes_encrypt_model_is_fips197.
+
+(* ---- AES.decryption = FIPS-197 InvCipher ---- *)
+Theorem C18_aes_decrypt_model_is_fips197 : forall key ct,
+  0 <= key < 2 ^ 128 -> 0 <= ct < 2 ^ 128 -> m_decryption key ct = InvCipherZ key ct.
+Proof. exact dec_model_is_fips197. Qed.
+Print Assumptions C18_aes_decrypt_model_is_fips197.
+
+(* ---- decryption inverts encryption (from the per-step inverses) ---- *)
+Theorem C18_aes_decrypt_inverts : forall key pt,
+  0 <= key < 2 ^ 128 -> 0 <= pt < 2 ^ 128 -> m_decryption key (m_encryption key pt) = pt.
+Proof. exact dec_inverts_enc. Qed.
+Print Assumptions C18_aes_decrypt_inverts.
+
+Theorem C18_fips197_invcipher_inverts_cipher : forall key pt,
+  0 <= key < 2 ^ 128 -> 0 <= pt < 2 ^ 128 -> InvCipherZ key (CipherZ key pt) = pt.
+Proof. exact InvCipherZ_CipherZ. Qed.
+Print Assumptions C18_fips197_invcipher_inverts_cipher.
+
+(* ---- AES state machines.  Full statement (NOT proved; checked behaviourally by py/checks/C18.py
+   against the circuit, the model and FIPS-197): from any state, a reset pulse with (pt, key)
+   followed by at least 11 cycles without reset leaves ready = 1 and the FIPS-197 result. ---- *)
+Definition C18_aes_state_machines_full_statement : Prop :=
+  forall key x s (rest : list sm_input),
+    0 <= key < 2 ^ 128 -> 0 <= x < 2 ^ 128 ->
+    Forall (fun i => fst (fst i) = 0) rest -> (11 <= length rest)%nat ->
+    sm_out (fold_left enc_sm_step rest (enc_sm_step s (1, x, key))) = (1, CipherZ key x) /\
+    sm_out (fold_left dec_sm_step rest (dec_sm_step s (1, x, key))) = (1, InvCipherZ key x).
+
+Definition fips_k : Z := 0x000102030405060708090a0b0c0d0e0f.
+Definition fips_p : Z := 0x00112233445566778899aabbccddeeff.
+Definition fips_c : Z := 0x69c4e0d86a7b0430d8cdb78070b4c55a.
+
+(* the instance of the full statement at the FIPS-197 Appendix C.1 vector: not ready during the
+   ten cycles after the reset, ready with the result from the 11th on, bogus inputs ignored *)
+Theorem C18_aes_state_machines_partial :
+  map fst (sm_run enc_sm_step sm_init ((1, fips_p, fips_k) :: repeat (0, 5, 1) 13))
+    = [0; 0; 0; 0; 0; 0; 0; 0; 0; 0; 0; 1; 1; 1] /\
+  nth 11 (sm_run enc_sm_step sm_init ((1, fips_p, fips_k) :: repeat (0, 5, 1) 13)) (0, 0) = (1, fips_c) /\
+  nth 13 (sm_run enc_sm_step sm_init ((1, fips_p, fips_k) :: repeat (0, 5, 1) 13)) (0, 0) = (1, fips_c) /\
+  map fst (sm_run dec_sm_step sm_init ((1, fips_c, fips_k) :: repeat (0, 5, 1) 13))
+    = [0; 0; 0; 0; 0; 0; 0; 0; 0; 0; 0; 1; 1; 1] /\
+  nth 13 (sm_run dec_sm_step sm_init ((1, fips_c, fips_k) :: repeat (0, 5, 1) 13)) (0, 0) = (1, fips_p).
+Proof. vm_compute. repeat split; reflexivity. Qed.
+Print Assumptions C18_aes_state_machines_partial.
+
+(* ---- prng_lfsr: the leap-ahead of `n` chained concats (growing vector, truncated to the register
+   width W >= 127 on assignment) is n single steps of the published LFSR, for every n, W, state ---- *)
+Theorem C18_lfsr_leap : forall n W la, 127 <= W ->
+  low W (m_leap n la) = iter n (lfsr_step W) (low W la).
+Proof. exact lfsr_leap_lemma. Qed.
+Print Assumptions C18_lfsr_leap.
+
+(* a register wider than 127 bits only keeps more history of the same 127-bit LFSR *)
+Theorem C18_lfsr_wide_register_is_127bit_lfsr : forall W s, 127 <= W ->
+  low 127 (lfsr_step W s) = lfsr_step 127 (low 127 s).
+Proof. exact lfsr_step_127. Qed.
+Print Assumptions C18_lfsr_wide_register_is_127bit_lfsr.
+
+(* ---- prng_xoroshiro128: the un-truncated shift/or/xor network, truncated to 64 bits on assignment,
+   and the truncated sum are the published xoroshiro128+ step ---- *)
+Theorem C18_xoroshiro_step_is_published : forall s0 s1, 0 <= s0 < 2 ^ 64 -> 0 <= s1 < 2 ^ 64 ->
+  m_xo_output s0 s1 = fst (xoro_next (s0, s1)) /\
+  low 64 (m_xo_s0_next s0 s1) = fst (snd (xoro_next (s0, s1))) /\
+  low 64 (m_xo_s1_next s0 s1) = snd (snd (xoro_next (s0, s1))).
+Proof. exact xoroshiro_step_lemma. Qed.
+Print Assumptions C18_xoroshiro_step_is_published.
+
+(* ---- csprng_trivium: k <= 64 parallel taps with index offset -i, and the concat word assembly,
+   are k serial steps of the published cipher (output bits in order, same final state).  Holds
+   because the smallest tap index (65) minus 64 is still >= 1: an induction, not a sweep. ---- *)
+Theorem C18_trivium_parallel_is_serial : forall k st, (k <= 64)%nat -> tv_inrange st ->
+  m_tv_par k st = triv_run k st.
+Proof. exact trivium_parallel_lemma. Qed.
+Print Assumptions C18_trivium_parallel_is_serial.
+
+Theorem C18_trivium_state_stays_in_range : forall key iv k,
+  tv_inrange (triv_load key iv) /\ tv_inrange (snd (triv_run k (triv_load key iv))).
+Proof. exact (fun key iv k => conj (triv_load_inrange key iv) (triv_run_inrange k _ (triv_load_inrange key iv))). Qed.
+Print Assumptions C18_trivium_state_stays_in_range.
+
+(* ---- PRNG load/req/ready protocol.  Full statement (NOT proved; checked behaviourally on every
+   run over bitwidths x bits_per_cycle x schedules): the cycle-level model of each circuit equals
+   the protocol specification built from the published single steps, for every schedule. ---- *)
+Definition C18_prng_protocol_full_statement : Prop :=
+  (forall bw ins, 0 < bw -> m_lfsr_run bw 0 ins = s_lfsr_run bw 0 ins) /\
+  (forall bw ins, 0 < bw -> m_xo_run bw xo_init ins = s_xo_run bw sxo_init ins) /\
+  (forall bw k ins, 0 < bw -> In k [1; 2; 4; 8; 16; 32; 64] ->
+     m_tv_run bw k tv_init ins = s_tv_run bw k stv_init ins).
+
+Definition tv_seed : Z := 0x0100000000000000000000000000000000000000.
+Definition tv_sched : list (Z * Z * Z) :=
+  (1, 0, tv_seed) :: repeat (0, 0, 0) 19 ++ (0, 1, 0) :: repeat (0, 0, 0) 3.
+
+(* instance: the first Trivium vector of the suite (eSTREAM) through both machines: warm-up is
+   1152 = 18 x 64 steps, ready at cycle 19, 128 key-stream bits ready 2 cycles after req *)
+Theorem C18_prng_protocol_partial :
+  m_tv_run 128 64 tv_init tv_sched = s_tv_run 128 64 stv_init tv_sched /\
+  nth 19 (s_tv_run 128 64 stv_init tv_sched) (0, 0) = (1, 0) /\
+  nth 22 (s_tv_run 128 64 stv_init tv_sched) (0, 0) = (1, 0x1cd761ffceb05e39f5b18f5c22042ab0) /\
+  msb_first (triv_keystream (Z.shiftr tv_seed 80) tv_seed 128) = 0x1cd761ffceb05e39f5b18f5c22042ab0 /\
+  triv_warmup = 1152%nat.
+Proof. vm_compute. repeat split; reflexivity. Qed.
+Print Assumptions C18_prng_protocol_partial.
+
+(* ---- the specifications reproduce the published vectors; hypotheses are satisfiable ---- *)
 Example C18_fips197_appendix_B :
   CipherZ 0x2b7e151628aed2a6abf7158809cf4f3c 0x3243f6a8885a308d313198a2e0370734
   = 0x3925841d02dc09fbdc118597196a0b32.
 Proof. vm_compute. reflexivity. Qed.
+
+Example C18_fips197_appendix_C1 :
+  CipherZ fips_k fips_p = fips_c /\ InvCipherZ fips_k fips_c = fips_p /\
+  m_encryption fips_k fips_p = fips_c /\ m_decryption fips_k fips_c = fips_p.
+Proof. vm_compute. repeat split; reflexivity. Qed.
+
+Example C18_fips197_appendix_A1_key_expansion :
+  nth 4 (KeyExpansion (bytes_be 0x2b7e151628aed2a6abf7158809cf4f3c)) [] = [0xa0; 0xfa; 0xfe; 0x17] /\
+  nth 43 (KeyExpansion (bytes_be 0x2b7e151628aed2a6abf7158809cf4f3c)) [] = [0xb6; 0x63; 0x0c; 0xa6].
+Proof. vm_compute. split; reflexivity. Qed.
+
+Example C18_good16_example : good16 (bytes_be fips_p) /\ tv_inrange (triv_load 5 9).
+Proof. split; [apply bytes_be_good|apply triv_load_inrange]. Qed.
+
+Example C18_lfsr_example :
+  low 127 (m_leap 200 0x102030405060708090a0b0c0d0e0f01) = iter 200 (lfsr_step 127) 0x102030405060708090a0b0c0d0e0f01
+  /\ msb_first (lfsr_stream 8 (2 ^ 126)) = 0x80.
+Proof. vm_compute. split; reflexivity. Qed.
